@@ -4,6 +4,7 @@ helper lemmas are in Lemmas.lean.
 -/
 import BV.C06.Mono
 import BV.C06.Mono2
+import BV.C06.Mono3
 import BV.C06.NoFuel
 import BV.C06.Elems
 import BV.C06.Der
@@ -333,6 +334,30 @@ theorem discourage_monotone_op_success (fl : Flags) (chk : Checker) (scriptSig s
     (h : verifyScript { fl with discourageOpSuccess := true } chk scriptSig scriptPubKey wit = .ok ()) :
     verifyScript { fl with discourageOpSuccess := false } chk scriptSig scriptPubKey wit = .ok () :=
   Lemmas.verifyScript_mono_seq Lemmas.DOS_seq fl chk scriptSig scriptPubKey wit () h
+
+/-- LOW_S (BIP62 rule 5, policy): dropping the flag never turns a success into a failure. -/
+theorem policy_monotone_low_s (fl : Flags) (chk : Checker) (scriptSig scriptPubKey : Bytes)
+    (wit : List Bytes) (h : verifyScript { fl with lowS := true } chk scriptSig scriptPubKey wit = .ok ()) :
+    verifyScript { fl with lowS := false } chk scriptSig scriptPubKey wit = .ok () :=
+  Lemmas.verifyScript_mono Lemmas.lowS_tightening fl chk scriptSig scriptPubKey wit () h
+
+/-- STRICTENC (signature hash type and public key format, policy). -/
+theorem policy_monotone_strictenc (fl : Flags) (chk : Checker) (scriptSig scriptPubKey : Bytes)
+    (wit : List Bytes) (h : verifyScript { fl with strictenc := true } chk scriptSig scriptPubKey wit = .ok ()) :
+    verifyScript { fl with strictenc := false } chk scriptSig scriptPubKey wit = .ok () :=
+  Lemmas.verifyScript_mono Lemmas.strictenc_tightening fl chk scriptSig scriptPubKey wit () h
+
+/-- WITNESS_PUBKEYTYPE (compressed keys in segwit v0, policy). -/
+theorem policy_monotone_witness_pubkeytype (fl : Flags) (chk : Checker) (scriptSig scriptPubKey : Bytes)
+    (wit : List Bytes) (h : verifyScript { fl with witnessPubkeytype := true } chk scriptSig scriptPubKey wit = .ok ()) :
+    verifyScript { fl with witnessPubkeytype := false } chk scriptSig scriptPubKey wit = .ok () :=
+  Lemmas.verifyScript_mono Lemmas.witnessPubkeytype_tightening fl chk scriptSig scriptPubKey wit () h
+
+/-- NULLFAIL (failed signatures must be empty, policy): affects CHECKSIG and both CHECKMULTISIG forms. -/
+theorem policy_monotone_nullfail (fl : Flags) (chk : Checker) (scriptSig scriptPubKey : Bytes)
+    (wit : List Bytes) (h : verifyScript { fl with nullfail := true } chk scriptSig scriptPubKey wit = .ok ()) :
+    verifyScript { fl with nullfail := false } chk scriptSig scriptPubKey wit = .ok () :=
+  Lemmas.verifyScript_mono Lemmas.nullfail_tightening fl chk scriptSig scriptPubKey wit () h
 
 /-- the hypotheses of the monotonicity theorems are satisfiable: a spend that verifies under all six flags -/
 example : ∃ chk : Checker,
